@@ -253,6 +253,49 @@ pub fn eval_partial_visitors(ctx: &mut Ctx, r: &Row, v: &[u8]) {
     }
 }
 
+/// the symbol object's own rendering: `DataMatrix::bitmap()` of an encoded message must be the standard placement of
+/// `DataMatrix::codewords()` (all entry points that hand out a symbol go through it)
+pub fn eval_symbol(ctx: &mut Ctx, r: &Row, pl: &Placement, msg: &[u8], entry: u8) {
+    ctx.eval();
+    let size = r.size;
+    let case = || Case::new("place_symbol").with("size", r.name).bytes("msg", msg).with("entry", entry);
+    let res = guard(|| {
+        let dm = match entry {
+            0 => datamatrix::DataMatrix::encode(msg, size),
+            1 => datamatrix::DataMatrix::encode_gs1(msg, size),
+            2 => datamatrix::DataMatrixBuilder::new().with_symbol_list(size).with_macros(false).encode(msg),
+            _ => match std::str::from_utf8(msg) {
+                Ok(s) => datamatrix::DataMatrix::encode_str(s, size),
+                Err(_) => datamatrix::DataMatrix::encode(msg, size),
+            },
+        };
+        dm.map(|dm| {
+            let bm = dm.bitmap();
+            (dm.codewords().to_vec(), bm.width(), bm.height(), bm.bits().to_vec())
+        })
+    });
+    match res {
+        Err(p) => ctx.violation("panic", &case(), p),
+        Ok(Err(_)) => ctx.count("symbol.encode_refused"),
+        Ok(Ok((cw, w, h, bits))) => {
+            if cw.len() != r.total() || w != r.cols || h != r.rows {
+                return ctx.violation("dims", &case(), format!("{} codewords, bitmap {}x{}", cw.len(), w, h));
+            }
+            let want = render(r, &pl.fill(&cw));
+            if bits != want {
+                let d = bits.iter().zip(&want).position(|(a, b)| a != b);
+                return ctx.violation("bitmap_differs_from_standard", &case(), format!("DataMatrix::bitmap(): first differing module index {:?} (width {})", d, w));
+            }
+            ctx.count("symbol.bitmap_ok");
+            let mut key = b"sym".to_vec();
+            key.extend_from_slice(r.name.as_bytes());
+            key.extend_from_slice(&cw[..cw.len().min(12)]);
+            key.push(entry);
+            ctx.nontrivial(hash64(&key));
+        }
+    }
+}
+
 pub fn run(ctx: &mut Ctx) {
     let thorough = ctx.is_thorough();
     let mut item = 0usize;
@@ -283,6 +326,11 @@ pub fn run(ctx: &mut Ctx) {
             item += 1;
             b += step;
         }
+        for k in 0..ctx.budget(16 * 8, 16 * 80) as usize {
+            let len = ctx.rng.below(r.data / 2 + 2);
+            let msg: Vec<u8> = (0..len).map(|_| *ctx.rng.pick(b"ABCabc0123456789 ,.*")).collect();
+            eval_symbol(ctx, r, &pl, &msg, (k % 4) as u8);
+        }
         let nr = ctx.budget(16 * 60, 16 * 600);
         for k in 0..nr {
             let v = ctx.rng.bytes(r.total());
@@ -305,6 +353,7 @@ pub fn replay(ctx: &mut Ctx, case: &Case) {
         "place_map" => eval_map(ctx, r),
         "place_vec" => eval_vec(ctx, r, &Placement::for_row(r), &case.get_bytes("cw"), "replay"),
         "place_partial" => eval_partial_visitors(ctx, r, &case.get_bytes("cw")),
+        "place_symbol" => eval_symbol(ctx, r, &Placement::for_row(r), &case.get_bytes("msg"), case.get_usize("entry") as u8),
         "place_reuse" => {
             let vs: Vec<Vec<u8>> = (0..case.get_usize("n")).map(|i| case.get_bytes(&format!("cw{}", i))).collect();
             eval_reuse(ctx, r, &Placement::for_row(r), &vs);
